@@ -630,23 +630,38 @@ impl<'a> Gen<'a> {
                 let v = vec_of(*dim, 0);
                 let mut r = Rng(*seed as u64);
                 let w = self.random_vec(&mut r);
+                // a third field whose dimension differs from the other two
+                let mut u = self.random_vec(&mut r);
+                if u == v || u == w {
+                    u = v.mul(&w).mul(&DimVec::single("Mass"));
+                }
                 let sname = self.fresh("St");
-                let (av, aw) = (self.annotation_inner(&v, &mut r), self.annotation_inner(&w, &mut r));
-                let (ev, ew) = (self.expr_inner(&v, &mut r, 2), self.expr_inner(&w, &mut r, 2));
+                let (av, aw, au) = (self.annotation_inner(&v, &mut r), self.annotation_inner(&w, &mut r), self.annotation_inner(&u, &mut r));
+                let (ev, ew, eu) = (self.expr_inner(&v, &mut r, 2), self.expr_inner(&w, &mut r, 2), self.expr_inner(&u, &mut r, 2));
                 let ev = self.site(ev);
                 let inst = self.fresh("s");
-                let q1 = self.fresh("q");
-                let q2 = self.fresh("q");
+                let (q1, q2, q3) = (self.fresh("q"), self.fresh("q"), self.fresh("q"));
                 self.features.struct_or_list = true;
-                self.shapes.push((inst.clone(), Shape::Struct(vec![("first".into(), v.clone()), ("second".into(), w.clone())])));
+                self.shapes.push((
+                    inst.clone(),
+                    Shape::Struct(vec![("first".into(), v.clone()), ("second".into(), w.clone()), ("third".into(), u.clone())]),
+                ));
                 self.vars.push((q1.clone(), v.clone()));
                 self.vars.push((q2.clone(), w.clone()));
+                self.vars.push((q3.clone(), u.clone()));
+                // the fields are written in one of the five orders that differ from the declaration
+                let mut fields = vec![format!("first: {ev}"), format!("second: {ew}"), format!("third: {eu}")];
+                let rot = r.below(3);
+                fields.rotate_left(rot);
+                if rot == 0 || r.below(2) == 0 {
+                    fields.swap(0, 2);
+                }
                 vec![
-                    Stmt { text: format!("struct {sname} {{ first: {av}, second: {aw} }}"), defines: vec![(sname.clone(), None)], dim: None, prints: 0 },
-                    // fields given in the other order
-                    Stmt { text: format!("let {inst} = {sname} {{ second: {ew}, first: {ev} }}"), defines: vec![(inst.clone(), None)], dim: None, prints: 0 },
+                    Stmt { text: format!("struct {sname} {{ first: {av}, second: {aw}, third: {au} }}"), defines: vec![(sname.clone(), None)], dim: None, prints: 0 },
+                    Stmt { text: format!("let {inst} = {sname} {{ {} }}", fields.join(", ")), defines: vec![(inst.clone(), None)], dim: None, prints: 0 },
                     Stmt { text: format!("let {q1} = {inst}.first"), defines: vec![(q1, Some(v.clone()))], dim: Some(v), prints: 0 },
                     Stmt { text: format!("let {q2} = {inst}.second"), defines: vec![(q2, Some(w.clone()))], dim: Some(w), prints: 0 },
+                    Stmt { text: format!("let {q3} = {inst}.third"), defines: vec![(q3, Some(u.clone()))], dim: Some(u), prints: 0 },
                 ]
             }
             TIns::List { dim, seed } => {
